@@ -81,6 +81,8 @@ impl<R: Round, const B: Word> FBig<R, B> {
     /// # Ok::<(), ParseError>(())
     /// ```
     pub fn split_at_point(self) -> (Self, Self) {
+        assert_finite(&self.repr);
+
         // trivial case when the exponent is positive
         if self.repr.exponent >= 0 {
             return (self, Self::ZERO);
